@@ -375,7 +375,7 @@ def get_bs_cached(method, cols, basis_dir='', verbose=False):
 
     if basis_dir is not None:
         path_to_basis_file = os.path.join(basis_dir, D_name)
-        np.save(path_to_basis_file, _D)
+        abel.transform._save_basis(path_to_basis_file, _D)
         if verbose:
             print("\ndeconvolution operator array saved to '{:s}"
                   .format(path_to_basis_file))
